@@ -226,6 +226,11 @@ func (w *World) callContractFor(key, mode, variant string) *FuncContract {
 		}
 	}
 	for _, fc := range v {
+		if fc.Variant == "" && fc.Mode == mode {
+			return fc
+		}
+	}
+	for _, fc := range v {
 		if fc.Mode == mode {
 			return fc
 		}
